@@ -25,6 +25,17 @@ Proof.
   intros c l l' n en tr D Hn Hl k Hk. apply (Desc_keys _ _ _ _ _ D) in Hk as [[_ H]|[-> _]]; auto.
 Qed.
 
+Lemma Desc_nodup : forall l l' n en tr,
+    Desc l l' n en tr -> (forall k nd, nrds (tr k nd) = nrds nd) ->
+    (forall k nd, In (k, nd) l -> NoDup (map fst (nrds nd))) ->
+    (forall e, en = Some e -> NoDup (map fst (nrds (snd e)))) ->
+    forall k nd, In (k, nd) l' -> NoDup (map fst (nrds nd)).
+Proof.
+  intros l l' n en tr D Htr Hl He k nd Hin. apply D in Hin as [[_ (nd0 & Hin & ->)]|[H _]].
+  - rewrite Htr. eauto.
+  - apply (He _ H).
+Qed.
+
 (* ---------- 1. occlusion unchanged ---------- *)
 Lemma Inv_same_occ : forall c l d ch l' d' ch' n en tr,
     Inv c (mkVer l d ch) -> sorted l' -> sorted d' ->
@@ -37,11 +48,13 @@ Lemma Inv_same_occ : forall c l d ch l' d' ch' n en tr,
                                  else if occluded c l n then fGLUE
                                       else if has_ns nd0 then fDELEGATION else 0) ->
     (forall y, In y (keys d') <-> In y (keys d)) ->
+    (forall e, en = Some e -> NoDup (map fst (nrds (snd e)))) ->
     Inv c (mkVer l' d' ch').
 Proof.
-  intros c l d ch l' d' ch' n en tr HI Sl Sd D Htr Hv Hocc Hown Hfl Hen Hd.
+  intros c l d ch l' d' ch' n en tr HI Sl Sd D Htr Hv Hocc Hown Hfl Hen Hd Hnd.
   constructor; cbn [v_nodes v_delegs]; auto.
   - eapply Desc_valid; eauto. apply (inv_v c _ HI).
+  - eapply Desc_nodup; eauto. apply (inv_nd c _ HI).
   - intros k' nd' Hin. rewrite flags_of_eq. rewrite (occluded_occk_ext c l l') by auto.
     apply D in Hin as [[Hk (nd & Hin & ->)]|[He Hk]].
     + rewrite Hfl by auto. rewrite (inv_flags c _ HI k' nd Hin). cbn [v_nodes].
@@ -63,9 +76,10 @@ Lemma Inv_new_top : forall c l d ch l' d' ch' n n0 nd0 tr,
     (forall k nd, In (k, nd) l -> K k <> K n ->
                   nflags (tr k nd) = if strictly_beneath k n then fGLUE else nflags nd) ->
     (forall y, In y (keys d') <-> (y = K n \/ (In y (keys d) /\ ~ sbelow y (K n)))) ->
+    NoDup (map fst (nrds nd0)) ->
     Inv c (mkVer l' d' ch').
 Proof.
-  intros c l d ch l' d' ch' n n0 nd0 tr HI Sl Sd D E0 Htr Hv Hna Hnocc Hns Hf0 Hfl Hd.
+  intros c l d ch l' d' ch' n n0 nd0 tr HI Sl Sd D E0 Htr Hv Hna Hnocc Hns Hf0 Hfl Hd Hnd.
   assert (Hown : forall k, owner c l' k <-> (owner c l k \/ k = K n)).
   { intros k. rewrite (Desc_owner c _ _ _ _ _ D Htr). split.
     - intros [[_ H]|[H _]]; auto.
@@ -87,6 +101,7 @@ Proof.
         apply occluded_false_iff in A. apply A, Hocc. auto. }
   constructor; cbn [v_nodes v_delegs]; auto.
   - eapply Desc_valid; eauto. apply (inv_v c _ HI).
+  - eapply Desc_nodup; eauto; [apply (inv_nd c _ HI)|]. intros e He. inversion He; subst. exact Hnd.
   - intros k' nd' Hin. rewrite flags_of_eq, Hoccb.
     apply D in Hin as [[Hk (nd & Hin & ->)]|[He Hk]].
     + rewrite Hfl by auto. rewrite (has_ns_rds (tr k' nd) nd) by auto.
@@ -142,9 +157,10 @@ Lemma Inv_del_top : forall c l d ch l' d' ch' n en tr,
     (forall y, In y (keys d') <->
                ((In y (keys d) /\ y <> K n) \/
                 exists k nd, In (k, nd) l /\ K k = y /\ sbelow y (K n) /\ has_ns nd = true /\ inner l n k = false)) ->
+    (forall e, en = Some e -> NoDup (map fst (nrds (snd e)))) ->
     Inv c (mkVer l' d' ch').
 Proof.
-  intros c l d ch l' d' ch' n en tr HI Sl Sd D Htr Hv Hnd Hen Hfl Hd.
+  intros c l d ch l' d' ch' n en tr HI Sl Sd D Htr Hv Hnd Hen Hfl Hd Hndp.
   pose proof (proj1 (inv_d c _ HI (K n)) Hnd) as [HnO Hnocc]. cbn [v_nodes] in HnO, Hnocc.
   assert (Hna : K n <> apexkey c) by (apply owner_unfold in HnO as (? & ? & _ & _ & _ & H); auto).
   assert (Hown : forall k, owner c l' k <-> (owner c l k /\ k <> K n)).
@@ -168,6 +184,7 @@ Proof.
       + apply occluded_false_iff. intros H0. apply Hout in H0; auto. apply occluded_iff in H0. congruence. }
   constructor; cbn [v_nodes v_delegs]; auto.
   - eapply Desc_valid; eauto. apply (inv_v c _ HI).
+  - eapply Desc_nodup; eauto. apply (inv_nd c _ HI).
   - intros k' nd' Hin. rewrite flags_of_eq, Hoccb.
     apply D in Hin as [[Hk (nd & Hin & ->)]|[He Hk]].
     + rewrite Hfl by auto. rewrite (has_ns_rds (tr k' nd) nd) by auto.
